@@ -27,10 +27,10 @@ func inputClass(p *pat, path string, c rcfg) string {
 	switch {
 	case allSlashes(norm):
 		return "path-of-slashes-only"
-	case len(norm) < 3 && len(p.runs) > 0 && len(p.runs[0]) >= 3 && p.toks[0].kind == kLit:
-		return "path<3-bytes-after-normalisation,first-literal>=3-bytes"
 	case !c.Strict && (strings.HasSuffix(dec, "//") || optionalTailAfterSlashes(p)):
 		return "StrictRouting=0 2+-trailing-slashes (in the path, or in the pattern before its optional tail)"
+	case len(norm) < 3 && len(p.runs) > 0 && len(p.runs[0]) >= 3 && p.toks[0].kind == kLit:
+		return "path<3-bytes-after-normalisation,first-literal>=3-bytes"
 	case paramBeforeSlashRun(p, c):
 		return "parameter-followed-by-literal-of-2+-slashes-only"
 	}
